@@ -18,17 +18,22 @@ clause                                              theorem(s)
 --------------------------------------------------  ------------------------------------------------
 explicit parameters = constructed instance          table_complete, override_law, override_law_semantic,
   (every family × method × subset × convention)       eval_substArg, refusal_only_documented
-which scipy distribution / slot gets which param    family_names, slot_maps
+which scipy distribution / slot gets which param    family_names, family_params, slot_maps
 documented formula = scipy's (shape,loc,scale) form scipy_form_eq_documented_weibull / _ew / _lognormal /
-  under the generated map                             _normal / _lognormfit / _gg / _vonmises,
-                                                      scipy_subclass_identity_map
+  under the generated map                             _normal / _lognormfit / _gg / _vonmises / _gumbel,
+                                                      scipy_subclass_identity_map (gamma, beta by `scipy_dist_name`;
+                                                      Gumbel by `scipy_dist`, a scipy law without shape parameters)
 mean/std of the norm-fit log-normal                 lognormfit_moments
-icdf(cdf x) = x, cdf(icdf p) = p                    weibull_icdf_cdf, weibull_cdf_icdf, ew_icdf_cdf, ew_cdf_icdf
+icdf(cdf x) = x, cdf(icdf p) = p                    weibull_icdf_cdf, weibull_cdf_icdf, ew_icdf_cdf, ew_cdf_icdf,
+                                                      gumbel_icdf_cdf, gumbel_cdf_icdf
 cdf non-decreasing, from 0 to 1                     weibull_cdf_monotone, weibull_cdf_strictMonoOn, weibull_cdf_nonneg,
-                                                      weibull_cdf_lt_one, weibull_cdf_tendsto_zero/_one; ew_… likewise
-pdf = d/dx cdf                                      weibull_hasDerivAt_cdf, ew_hasDerivAt_cdf
+                                                      weibull_cdf_lt_one, weibull_cdf_tendsto_zero/_one; ew_… likewise;
+                                                      gumbel_cdf_strictMono, gumbel_cdf_monotone, gumbel_cdf_pos,
+                                                      gumbel_cdf_lt_one, gumbel_cdf_tendsto_zero/_one
+pdf = d/dx cdf                                      weibull_hasDerivAt_cdf, ew_hasDerivAt_cdf, gumbel_hasDerivAt_cdf
 pdf ≥ 0, = 0 off the support                        weibull_pdf_nonneg, weibull_pdf_zero_off_support, ew_…,
-                                                      lognormal_pdf_…, normal_pdf_nonneg, gg_pdf_…, vonmises_pdf_nonneg
+                                                      lognormal_pdf_…, normal_pdf_nonneg, gg_pdf_…, vonmises_pdf_nonneg,
+                                                      gumbel_pdf_pos (support = the whole line)
 families whose special function is scipy's          …_partial: lognormal / normal / gg / vonmises inverse and
                                                       monotonicity laws RELATIVE TO an abstract Φ, P(m,·), V_κ that
                                                       is monotone with the stated inverse (= scipy's contract).
@@ -388,6 +393,84 @@ theorem ew_hasDerivAt_cdf (ha : 0 < a) {x : ℝ} (hx : 0 < x) :
 
 end ew
 
+section gumbel
+/-! Gumbel (`ScipyDistribution` subclass of `scipy.stats.gumbel_r`, parameters `loc`, `scale` only): the law
+needs no special function beyond exp/log, so every clause is proven outright (no `_partial`). -/
+variable {l s : ℝ}
+
+theorem gumbel_icdf_cdf (hs : s ≠ 0) (x : ℝ) :
+    gumbelIcdf realTr l s (gumbelCdf realTr l s x) = x := by
+  simp only [gumbelIcdf, gumbelCdf, realTr]
+  rw [Real.log_exp, neg_neg, Real.log_exp]
+  field_simp
+  ring
+
+theorem gumbel_cdf_icdf (hs : s ≠ 0) {p : ℝ} (hp0 : 0 < p) (hp1 : p < 1) :
+    gumbelCdf realTr l s (gumbelIcdf realTr l s p) = p := by
+  have hL : 0 < -Real.log p := by
+    have := Real.log_neg hp0 hp1
+    linarith
+  simp only [gumbelIcdf, gumbelCdf, realTr]
+  rw [show -((l - s * Real.log (-Real.log p) - l) / s) = Real.log (-Real.log p) by field_simp; ring,
+    Real.exp_log hL, neg_neg, Real.exp_log hp0]
+
+theorem gumbel_cdf_pos (x : ℝ) : 0 < gumbelCdf realTr l s x := Real.exp_pos _
+
+theorem gumbel_cdf_lt_one (x : ℝ) : gumbelCdf realTr l s x < 1 := by
+  simp only [gumbelCdf, realTr]
+  rw [Real.exp_lt_one_iff]
+  have := Real.exp_pos (-((x - l) / s))
+  linarith
+
+theorem gumbel_cdf_strictMono (hs : 0 < s) : StrictMono (gumbelCdf realTr l s) := by
+  intro x y hxy
+  simp only [gumbelCdf, realTr]
+  apply Real.exp_lt_exp.2
+  apply neg_lt_neg
+  apply Real.exp_lt_exp.2
+  apply neg_lt_neg
+  exact div_lt_div_of_pos_right (by linarith) hs
+
+theorem gumbel_cdf_monotone (hs : 0 < s) : Monotone (gumbelCdf realTr l s) :=
+  (gumbel_cdf_strictMono hs).monotone
+
+theorem gumbel_cdf_tendsto_one (hs : 0 < s) : Tendsto (gumbelCdf realTr l s) atTop (𝓝 1) := by
+  have haff : Tendsto (fun x : ℝ => (x - l) / s) atTop atTop :=
+    (tendsto_atTop_add_const_right _ (-l) tendsto_id).atTop_div_const hs
+  have h1 : Tendsto (fun x : ℝ => Real.exp (-((x - l) / s))) atTop (𝓝 0) :=
+    Real.tendsto_exp_neg_atTop_nhds_zero.comp haff
+  have h2 : Tendsto (fun x : ℝ => Real.exp (-Real.exp (-((x - l) / s)))) atTop (𝓝 (Real.exp (-0))) :=
+    (Real.continuous_exp.tendsto (-0)).comp h1.neg
+  rw [neg_zero, Real.exp_zero] at h2
+  exact h2
+
+theorem gumbel_cdf_tendsto_zero (hs : 0 < s) : Tendsto (gumbelCdf realTr l s) atBot (𝓝 0) := by
+  have haff : Tendsto (fun x : ℝ => (x - l) / s) atBot atBot :=
+    (tendsto_atBot_add_const_right _ (-l) tendsto_id).atBot_div_const hs
+  have h1 : Tendsto (fun x : ℝ => Real.exp (-((x - l) / s))) atBot atTop :=
+    Real.tendsto_exp_atTop.comp (tendsto_neg_atBot_atTop.comp haff)
+  exact Real.tendsto_exp_atBot.comp (tendsto_neg_atTop_atBot.comp h1)
+
+theorem gumbel_pdf_pos (hs : 0 < s) (x : ℝ) : 0 < gumbelPdf realTr l s x := by
+  simp only [gumbelPdf, realTr]
+  have := Real.exp_pos (-((x - l) / s + Real.exp (-((x - l) / s))))
+  positivity
+
+theorem gumbel_hasDerivAt_cdf (x : ℝ) :
+    HasDerivAt (gumbelCdf realTr l s) (gumbelPdf realTr l s x) x := by
+  have h1 : HasDerivAt (fun y : ℝ => (y - l) / s) (1 / s) x :=
+    ((hasDerivAt_id x).sub_const l).div_const s
+  have h4 := (h1.neg.exp).neg.exp
+  have heq : gumbelPdf realTr l s x =
+      Real.exp (-Real.exp (-((x - l) / s))) * -(Real.exp (-((x - l) / s)) * -(1 / s)) := by
+    simp only [gumbelPdf, realTr]
+    rw [neg_add, Real.exp_add]
+    ring
+  rw [heq]
+  exact h4
+
+end gumbel
+
 section lnnf
 
 /-- `exp(log K / 2) = sqrt K` -/
@@ -585,7 +668,14 @@ theorem family_names : families.map (·.name) =
     ["WeibullDistribution", "LogNormalDistribution", "NormalDistribution",
      "LogNormalNormFitDistribution", "ExponentiatedWeibullDistribution",
      "GeneralizedGammaDistribution", "VonMisesDistribution", "GammaScipyDistribution",
-     "BetaScipyDistribution"] := by decide +kernel
+     "BetaScipyDistribution", "GumbelScipyDistribution"] := by decide +kernel
+
+/-- the parameter names of every family, in the order of `.parameters` (= numbering of `arg p`); for a
+`ScipyDistribution` subclass: scipy's shape names, then `loc`, `scale` (none for the Gumbel) -/
+theorem family_params : families.map (·.params) =
+    [["alpha", "beta", "gamma"], ["mu", "sigma"], ["mu", "sigma"], ["mu_norm", "sigma_norm"],
+     ["alpha", "beta", "delta"], ["m", "c", "lambda_"], ["kappa", "mu"], ["a", "loc", "scale"],
+     ["a", "b", "loc", "scale"], ["loc", "scale"]] := by decide +kernel
 
 theorem slot_maps : baseMaps =
     [("weibull_min", [.arg 1, .arg 2, .arg 0]),
@@ -598,7 +688,8 @@ theorem slot_maps : baseMaps =
      ("gengamma", [.arg 0, .arg 1, .int 0, .div (.int 1) (.arg 2)]),
      ("vonmises", [.arg 0, .arg 1]),
      ("gamma", [.arg 0, .arg 1, .arg 2]),
-     ("beta", [.arg 0, .arg 1, .arg 2, .arg 3])] := by decide +kernel
+     ("beta", [.arg 0, .arg 1, .arg 2, .arg 3]),
+     ("gumbel_r", [.arg 0, .arg 1])] := by decide +kernel
 
 theorem scipy_form_eq_documented_weibull (a b g : ℝ) (ha : 0 < a) :
     slotValues 0 [a, b, g] = some ("weibull_min", [b, g, a]) ∧
@@ -718,11 +809,23 @@ theorem scipy_form_eq_documented_vonmises (V VInv : ℝ → ℝ) (i0k kappa mu :
   · simp [locScalePdf, stdVonMisesPdf, vonMisesPdf]
   · simp only [locScalePpf, vonMisesIcdf]; ring
 
+/-- Gumbel subclass (no shape parameter): `(loc, scale)` go to `gumbel_r` unchanged, and scipy's
+location-scale form of the standard Gumbel is the documented law -/
+theorem scipy_form_eq_documented_gumbel (l sc : ℝ) :
+    slotValues 9 [l, sc] = some ("gumbel_r", [l, sc]) ∧
+    ∀ x, locScaleCdf (stdGumbelCdf realTr) l sc x = gumbelCdf realTr l sc x ∧
+      locScalePdf (stdGumbelPdf realTr) l sc x = gumbelPdf realTr l sc x ∧
+      locScalePpf (stdGumbelPpf realTr) l sc x = gumbelIcdf realTr l sc x := by
+  refine ⟨by simp [slotValues, slot_maps, PExpr.eval, envOf], fun x => ⟨rfl, ?_, ?_⟩⟩
+  · simp only [locScalePdf, stdGumbelPdf, gumbelPdf]; ring
+  · simp only [locScalePpf, stdGumbelPpf, gumbelIcdf]; ring
+
 /-- ScipyDistribution subclasses: parameters go to scipy in their own order, unchanged -/
 theorem scipy_subclass_identity_map (a l sc b : ℝ) :
     slotValues 7 [a, l, sc] = some ("gamma", [a, l, sc]) ∧
-    slotValues 8 [a, b, l, sc] = some ("beta", [a, b, l, sc]) := by
-  constructor <;> simp [slotValues, slot_maps, PExpr.eval, envOf]
+    slotValues 8 [a, b, l, sc] = some ("beta", [a, b, l, sc]) ∧
+    slotValues 9 [l, sc] = some ("gumbel_r", [l, sc]) := by
+  refine ⟨?_, ?_, ?_⟩ <;> simp [slotValues, slot_maps, PExpr.eval, envOf]
 
 end scipy_form
 
@@ -746,6 +849,12 @@ example : weibullCdf realTr 2 1 0 (weibullIcdf realTr 2 1 0 (1 / 2)) = 1 / 2 :=
   weibull_cdf_icdf (by norm_num) (by norm_num) (by norm_num) (by norm_num)
 example : ewCdf realTr 2 1 3 (ewIcdf realTr 2 1 3 (1 / 2)) = 1 / 2 :=
   ew_cdf_icdf (by norm_num) (by norm_num) (by norm_num) (by norm_num) (by norm_num)
+example : gumbelIcdf realTr (-1) 2 (gumbelCdf realTr (-1) 2 3) = 3 := gumbel_icdf_cdf (by norm_num) 3
+example : gumbelCdf realTr (-1) 2 (gumbelIcdf realTr (-1) 2 (1 / 2)) = 1 / 2 :=
+  gumbel_cdf_icdf (by norm_num) (by norm_num) (by norm_num)
+/-- the family without shape parameters is in the table: its single-override row replaces exactly `loc` -/
+example : ∃ r ∈ getRows, r.fam = 9 ∧ r.expl = [0] ∧ r.mode = 1 ∧
+    r.result = some ("gumbel_r", "ppf", [.expl 0, .arg 1]) := by decide +kernel
 example : Real.exp (lnnfMu realTr 3 1 + lnnfSigma realTr 3 1 ^ 2 / 2) = 3 :=
   (lognormfit_moments (by norm_num) (by norm_num)).1
 /-- the hypotheses of the `_partial` laws are satisfiable (identity leaf) -/
